@@ -311,11 +311,11 @@ def withInits (g : Graph) (root : NodeId) (inits : List NodeId) : Graph :=
   ⟨setAt g.nodes root (fun nd => { nd with initTasks := inits })⟩
 
 theorem submit_fst (enc : Str → Str) (g : Graph) (root : NodeId) (inits : List NodeId) :
-    (submit enc g root inits).1 = ⟨setAt (sealList (withInits g root inits).nodes (sealed enc (withInits g root inits) root)) root
+    (submit enc g root inits).1 = ⟨setAt (sealList (withInits g root inits).nodes (submitSealed enc (withInits g root inits) root)) root
       (fun nd => { nd with task := some root })⟩ := rfl
 
 theorem submit_snd (enc : Str → Str) (g : Graph) (root : NodeId) (inits : List NodeId) :
-    (submit enc g root inits).2 = genpaths enc (withInits g root inits) root := rfl
+    (submit enc g root inits).2 = submitPaths enc (withInits g root inits) root := rfl
 
 theorem getElem?_sealList : ∀ (s : List (NodeId × List Str)) (ns : List Node) (n : Nat),
     (sealList ns s)[n]? = ns[n]?.map (fun nd => if n ∈ s.map Prod.fst then { nd with isSealed := true } else nd)
@@ -378,13 +378,10 @@ theorem sealed_root_mem (enc : Str → Str) (g : Graph) (root : NodeId) (nd : No
     (hs : nd.isSealed = false) : (root, []) ∈ sealed enc g root := by
   simp [sealed, walkNode, hn, hs]
 
-theorem sealed_of_sealed_root (enc : Str → Str) (g : Graph) (root : NodeId) (nd : Node) (hn : g.node root = some nd)
-    (hs : nd.isSealed = true) : sealed enc g root = [] := by
-  simp [sealed, walkNode, hn, hs]
-
-theorem sealed_of_no_root (enc : Str → Str) (g : Graph) (root : NodeId) (hn : g.node root = none) :
-    sealed enc g root = [] := by
-  simp [sealed, walkNode, hn]
+theorem submitSealed_root_mem (enc : Str → Str) (g : Graph) (root : NodeId) (nd : Node) (hn : g.node root = some nd)
+    (hs : nd.isSealed = false) : (root, []) ∈ submitSealed enc g root := by
+  rw [submitSealed_unsealed enc g root nd hn hs]
+  exact sealed_root_mem enc g root nd hn hs
 
 theorem fold_inv {α β : Type} (Q : α → Prop) (F : α → β → α) (h : ∀ a b, Q a → Q (F a b)) :
     ∀ (L : List β) (a : α), Q a → Q (L.foldl F a)
@@ -435,6 +432,17 @@ theorem sealed_unsealed (enc : Str → Str) (g : Graph) (root : NodeId) :
     ∀ e ∈ sealed enc g root, ∃ nd, g.node e.1 = some nd ∧ nd.isSealed = false :=
   walkNode_out_unsealed enc g _ [] root {} (by simp)
 
+theorem submitSealed_unsealedNodes (enc : Str → Str) (g : Graph) (root : NodeId) :
+    ∀ e ∈ submitSealed enc g root, ∃ nd, g.node e.1 = some nd ∧ nd.isSealed = false := by
+  have h0 := walkNode_out_unsealed enc g (g.nodes.length + 1) [] root {} (by simp)
+  unfold submitSealed submitWalk
+  cases g.node root with
+  | none => exact h0
+  | some nd =>
+    exact fold_inv (fun w : W => ∀ e ∈ w.out, ∃ nd, g.node e.1 = some nd ∧ nd.isSealed = false)
+      (fun w e => walkNode enc g (g.nodes.length + 1) e.1 e.2 w)
+      (fun w e hw => walkNode_out_unsealed enc g _ e.1 e.2 w hw) (initRefs enc nd) _ h0
+
 /-! #### the graph after `submit` -/
 
 /-- an object processed by the walk is sealed afterwards. -/
@@ -453,25 +461,25 @@ theorem le_submit (enc : Str → Str) (g : Graph) (root : NodeId) (inits : List 
 theorem submit_root_sealed (enc : Str → Str) (g : Graph) (root : NodeId) (inits : List NodeId) (nd : Node)
     (hn : g.node root = some nd) : ∃ nd', (submit enc g root inits).1.node root = some nd' ∧ nd'.isSealed = true := by
   obtain ⟨nd1, h1, _⟩ := le_withInits g root inits root nd hn
-  have h2 : ∃ nd2, (⟨sealList (withInits g root inits).nodes (sealed enc (withInits g root inits) root)⟩ : Graph).node root = some nd2
+  have h2 : ∃ nd2, (⟨sealList (withInits g root inits).nodes (submitSealed enc (withInits g root inits) root)⟩ : Graph).node root = some nd2
       ∧ nd2.isSealed = true := by
     by_cases hs : nd1.isSealed = true
-    · obtain ⟨nd2, a, b⟩ := le_sealList (sealed enc (withInits g root inits) root) (withInits g root inits).nodes root nd1 h1
+    · obtain ⟨nd2, a, b⟩ := le_sealList (submitSealed enc (withInits g root inits) root) (withInits g root inits).nodes root nd1 h1
       exact ⟨nd2, a, b hs⟩
     · have hs' : nd1.isSealed = false := by simpa using hs
-      have hm := sealed_root_mem enc _ root nd1 h1 hs'
+      have hm := submitSealed_root_mem enc _ root nd1 h1 hs'
       exact sealList_sealed _ _ root nd1 h1 (List.mem_map.mpr ⟨_, hm, rfl⟩)
   obtain ⟨nd2, a, b⟩ := h2
   rw [submit_fst]
-  obtain ⟨nd3, c, d⟩ := le_setAt ⟨sealList (withInits g root inits).nodes (sealed enc (withInits g root inits) root)⟩ root
+  obtain ⟨nd3, c, d⟩ := le_setAt ⟨sealList (withInits g root inits).nodes (submitSealed enc (withInits g root inits) root)⟩ root
     (fun nd => { nd with task := some root }) (fun _ _ hs => hs) root nd2 a
   exact ⟨nd3, c, d b⟩
 
 theorem inv_submit {enc : Str → Str} {g : Graph} (hg : g.Inv enc) (root : NodeId) (inits : List NodeId) :
     (submit enc g root inits).1.Inv enc := by
   have h1 := inv_withInits hg root inits
-  have h2 : Graph.Inv enc ⟨sealList (withInits g root inits).nodes (sealed enc (withInits g root inits) root)⟩ :=
-    inv_sealList (sealed enc (withInits g root inits) root) _ h1
+  have h2 : Graph.Inv enc ⟨sealList (withInits g root inits).nodes (submitSealed enc (withInits g root inits) root)⟩ :=
+    inv_sealList (submitSealed enc (withInits g root inits) root) _ h1
   have hr := fun nd hn => submit_root_sealed enc g root inits nd hn
   rw [submit_fst] at hr ⊢
   apply inv_setAt h2
@@ -483,7 +491,7 @@ theorem inv_submit {enc : Str → Str} {g : Graph} (hg : g.Inv enc) (root : Node
   cases hgr : g.node t with
   | none =>
     exfalso
-    have hnone : (⟨sealList (withInits g t inits).nodes (sealed enc (withInits g t inits) t)⟩ : Graph).node t = none := by
+    have hnone : (⟨sealList (withInits g t inits).nodes (submitSealed enc (withInits g t inits) t)⟩ : Graph).node t = none := by
       unfold Graph.node at hgr
       simp [Graph.node, getElem?_sealList, withInits, getElem?_setAt, hgr]
     rw [hnone] at hn2
@@ -499,8 +507,8 @@ theorem inv_submit {enc : Str → Str} {g : Graph} (hg : g.Inv enc) (root : Node
 theorem submit_entries_unsealed (enc : Str → Str) (g : Graph) (root : NodeId) (inits : List NodeId) (e : Entry)
     (he : e ∈ (submit enc g root inits).2) : ∃ nd, g.node e.node = some nd ∧ nd.isSealed = false := by
   rw [submit_snd] at he
-  obtain ⟨_, hs, _, _, _⟩ := mem_genpaths he
-  obtain ⟨nd1, h1, h2⟩ := sealed_unsealed enc _ root _ hs
+  obtain ⟨_, hs, _, _, _⟩ := mem_entries he
+  obtain ⟨nd1, h1, h2⟩ := submitSealed_unsealedNodes enc _ root _ hs
   obtain ⟨nd, a, b, _⟩ := node_withInits g root inits _ nd1 h1
   exact ⟨nd, a, b.trans h2⟩
 
@@ -508,34 +516,84 @@ theorem submit_entries_unsealed (enc : Str → Str) (g : Graph) (root : NodeId) 
 theorem submit_entries_sealed (enc : Str → Str) (g : Graph) (root : NodeId) (inits : List NodeId) (e : Entry)
     (he : e ∈ (submit enc g root inits).2) : ∃ nd', (submit enc g root inits).1.node e.node = some nd' ∧ nd'.isSealed = true := by
   rw [submit_snd] at he
-  obtain ⟨nd1, hs, h1, _, _⟩ := mem_genpaths he
-  obtain ⟨nd2, a, b⟩ := sealList_sealed (withInits g root inits).nodes (sealed enc (withInits g root inits) root) e.node nd1 h1
+  obtain ⟨nd1, hs, h1, _, _⟩ := mem_entries he
+  obtain ⟨nd2, a, b⟩ := sealList_sealed (withInits g root inits).nodes (submitSealed enc (withInits g root inits) root) e.node nd1 h1
     (List.mem_map.mpr ⟨_, hs, rfl⟩)
   rw [submit_fst]
-  obtain ⟨nd3, c, d⟩ := le_setAt ⟨sealList (withInits g root inits).nodes (sealed enc (withInits g root inits) root)⟩ root
+  obtain ⟨nd3, c, d⟩ := le_setAt ⟨sealList (withInits g root inits).nodes (submitSealed enc (withInits g root inits) root)⟩ root
     (fun nd => { nd with task := some root }) (fun _ _ hs => hs) e.node nd2 a
   exact ⟨nd3, c, d b⟩
 
-/-- nothing is generated when the submitted object is already sealed (submitted before, or sealed
-    as a sub-configuration of another task) or does not exist. -/
-theorem submit_sealed_root (enc : Str → Str) (g : Graph) (root : NodeId) (inits : List NodeId)
-    (h : ∀ nd, g.node root = some nd → nd.isSealed = true) : (submit enc g root inits).2 = [] := by
-  rw [submit_snd]
-  unfold genpaths
-  cases h1 : (withInits g root inits).node root with
-  | none => simp [sealed_of_no_root enc _ root h1]
-  | some nd1 =>
-    obtain ⟨nd, a, b, _⟩ := node_withInits g root inits root nd1 h1
-    simp [sealed_of_sealed_root enc _ root nd1 h1 (b ▸ h nd a)]
+/-- the init tasks of `root` in the graph that is walked are the ones given to `submit`. -/
+theorem withInits_root (g : Graph) (root : NodeId) (inits : List NodeId) (nd : Node) (hn : g.node root = some nd) :
+    (withInits g root inits).node root = some { nd with initTasks := inits } := by
+  unfold withInits
+  rw [node_setAt, if_pos rfl, hn]
+  rfl
 
-theorem submit_entries_root (enc : Str → Str) (g : Graph) (root : NodeId) (inits : List NodeId)
-    (h : (submit enc g root inits).2 ≠ []) : ∃ nd, g.node root = some nd ∧ nd.isSealed = false := by
-  cases hg : g.node root with
-  | none => exact absurd (submit_sealed_root enc g root inits (fun nd hn => by simp [hg] at hn)) h
-  | some nd =>
-    by_cases hs : nd.isSealed = true
-    · exact absurd (submit_sealed_root enc g root inits (fun nd' hn => by rw [hg] at hn; cases hn; exact hs)) h
-    · exact ⟨nd, rfl, by simpa using hs⟩
+/-- **submission of a task that is already sealed** (sealed as a sub-configuration of another task): the
+    task itself gets nothing; only (sub-configurations of) the init tasks just given that were still
+    unsealed get paths, all below `out/__init_tasks__/<index>/` of the job directory of the task. -/
+theorem submit_sealed_root (enc : Str → Str) (g : Graph) (hg : g.Inv enc) (root : NodeId) (inits : List NodeId) (nd : Node)
+    (hn : g.node root = some nd) (hs : nd.isSealed = true) (e : Entry) (he : e ∈ (submit enc g root inits).2) :
+    e.node ≠ root ∧ ∃ i t, i < inits.length ∧ e.keys = initKey :: idxKey i :: t
+      ∧ e.path = ⟨false, outStr :: initKey :: idxKey i :: t ++ [e.file]⟩ := by
+  rw [submit_snd] at he
+  have hok := (inv_withInits hg root inits).ok
+  have h1 := withInits_root g root inits nd hn
+  obtain ⟨hw, hsh⟩ := submitSealed_sealed_root enc _ hok root _ h1 hs
+  obtain ⟨_, hm, _, _, _⟩ := mem_entries he
+  obtain ⟨h2, i, t, hi, hk⟩ := hsh _ hm
+  obtain ⟨_, _, hp⟩ := entries_shape enc _ hok _ hw e he
+  refine ⟨h2, i, t, hi, hk, ?_⟩
+  have hk' : e.keys = initKey :: idxKey i :: t := hk
+  rw [hp, hk']
+  rfl
+
+/-- nothing at all when, moreover, every init task given is already sealed (or none is given). -/
+theorem submit_sealed_all (enc : Str → Str) (g : Graph) (root : NodeId) (inits : List NodeId) (nd : Node)
+    (hn : g.node root = some nd) (hs : nd.isSealed = true)
+    (hi : ∀ t ∈ inits, ∀ nt, g.node t = some nt → nt.isSealed = true) : (submit enc g root inits).2 = [] := by
+  rw [submit_snd]
+  have h1 := withInits_root g root inits nd hn
+  have hw0 : walkNode enc (withInits g root inits) ((withInits g root inits).nodes.length + 1) [] root {} = ⟨[root], []⟩ := by
+    simp [walkNode, h1, hs]
+  -- every late walk stops at once: its start is absent or sealed
+  have hstop : ∀ (L : List Ref) (w : W), w.out = [] → (∀ e ∈ L, e.2 ∈ inits) →
+      (L.foldl (fun w e => walkNode enc (withInits g root inits) ((withInits g root inits).nodes.length + 1) e.1 e.2 w) w).out = [] := by
+    intro L
+    induction L with
+    | nil => intro w hw _; exact hw
+    | cons e L ih =>
+      intro w hw hL
+      rw [List.foldl_cons]
+      apply ih _ _ (fun e' he' => hL e' (by simp [he']))
+      have hsl : match (withInits g root inits).node e.2 with | some nt => nt.isSealed = true | none => True := by
+        cases h2 : (withInits g root inits).node e.2 with
+        | none => trivial
+        | some nt =>
+          obtain ⟨nt0, a, b, _⟩ := node_withInits g root inits e.2 nt h2
+          show nt.isSealed = true
+          rw [← b]
+          exact hi e.2 (hL e (by simp)) nt0 a
+      rw [(walkNode_sealed enc _ _ e.1 e.2 w hsl).1, hw]
+  have : submitSealed enc (withInits g root inits) root = [] := by
+    unfold submitSealed submitWalk
+    simp only [h1, hw0]
+    apply hstop _ _ rfl
+    intro e he
+    obtain ⟨i, _, _, h3⟩ := mem_initRefs enc _ e he
+    exact List.mem_of_getElem? h3
+  simp [submitPaths, this]
+
+theorem submit_no_root (enc : Str → Str) (g : Graph) (root : NodeId) (inits : List NodeId)
+    (h : g.node root = none) : (submit enc g root inits).2 = [] := by
+  rw [submit_snd]
+  have h1 : (withInits g root inits).node root = none := by
+    unfold withInits
+    rw [node_setAt, if_pos rfl, h]
+    rfl
+  simp [submitPaths, submitSealed_no_root enc _ root h1]
 
 /-! ### E. histories -/
 
@@ -566,7 +624,11 @@ theorem inv_step {enc : Str → Str} {s : HState} (hs : s.g.Inv enc) (op : Op) (
   | addPre n t => exact inv_addPre hs n t
   | copyDeps c o => exact inv_copyDeps hs c o
   | mark r o => exact inv_markOutput hs r o
-  | submit root inits outs => exact inv_markOutputs root outs _ (inv_submit hs root inits)
+  | submit root inits outs =>
+    simp only [HState.step]
+    split
+    · exact hs
+    · exact inv_markOutputs root outs _ (inv_submit hs root inits)
 
 theorem le_step (enc : Str → Str) (s : HState) (op : Op) : s.g.Le (s.step enc op).g := by
   cases op with
@@ -575,7 +637,11 @@ theorem le_step (enc : Str → Str) (s : HState) (op : Op) : s.g.Le (s.step enc 
   | addPre n t => exact le_addPre s.g n t
   | copyDeps c o => exact le_copyDeps s.g c o
   | mark r o => exact le_markOutput s.g r o
-  | submit root inits outs => exact (le_submit enc s.g root inits).trans (le_markOutputs root outs _)
+  | submit root inits outs =>
+    simp only [HState.step]
+    split
+    · exact Graph.Le.refl _
+    · exact (le_submit enc s.g root inits).trans (le_markOutputs root outs _)
 
 theorem exec_cons (enc : Str → Str) (s : HState) (op : Op) (ops : List Op) :
     Hist.exec enc s (op :: ops) = Hist.exec enc (s.step enc op) ops := rfl
@@ -594,10 +660,13 @@ theorem step_paths (enc : Str → Str) (s : HState) (op : Op) :
       ∧ ∀ x ∈ new, ∃ nd, s.g.node x.2.node = some nd ∧ nd.isSealed = false := by
   cases op with
   | submit root inits outs =>
-    refine ⟨_, rfl, ?_⟩
-    intro x hx
-    obtain ⟨e, he, rfl⟩ := List.mem_map.mp hx
-    exact submit_entries_unsealed enc s.g root inits e he
+    simp only [HState.step]
+    split
+    · exact ⟨[], by simp, by simp⟩
+    · refine ⟨_, rfl, ?_⟩
+      intro x hx
+      obtain ⟨e, he, rfl⟩ := List.mem_map.mp hx
+      exact submit_entries_unsealed enc s.g root inits e he
   | construct nd => exact ⟨[], by simp [HState.step], by simp⟩
   | set n k v pos => exact ⟨[], by simp [HState.step], by simp⟩
   | addPre n t => exact ⟨[], by simp [HState.step], by simp⟩
@@ -627,15 +696,16 @@ theorem exec_paths (enc : Str → Str) : ∀ (ops : List Op) (s : HState),
 
 /-! #### the generated-path attribute of an object -/
 
-theorem pathOf_append_some {g g' : Graph} {l new : List (NodeId × Entry)} {n : NodeId} {a : Str} {x : NodeId × PPath}
-    (h : (HState.mk g l).pathOf n a = some x) : (HState.mk g' (l ++ new)).pathOf n a = some x := by
+theorem pathOf_append_some {g g' : Graph} {j j' : List NodeId} {l new : List (NodeId × Entry)} {n : NodeId} {a : Str}
+    {x : NodeId × PPath}
+    (h : (HState.mk g l j).pathOf n a = some x) : (HState.mk g' (l ++ new) j').pathOf n a = some x := by
   simp only [HState.pathOf, List.find?_append] at h ⊢
   cases hf : l.find? (fun x => x.2.node == n && x.2.arg == a) with
   | none => simp [hf] at h
   | some y => simpa [hf] using h
 
-theorem pathOf_append_none {g g' : Graph} {l new : List (NodeId × Entry)} {n : NodeId} {a : Str}
-    (h : ∀ x ∈ new, x.2.node ≠ n) : (HState.mk g' (l ++ new)).pathOf n a = (HState.mk g l).pathOf n a := by
+theorem pathOf_append_none {g g' : Graph} {j j' : List NodeId} {l new : List (NodeId × Entry)} {n : NodeId} {a : Str}
+    (h : ∀ x ∈ new, x.2.node ≠ n) : (HState.mk g' (l ++ new) j').pathOf n a = (HState.mk g l j).pathOf n a := by
   simp only [HState.pathOf, List.find?_append]
   have : new.find? (fun x => x.2.node == n && x.2.arg == a) = none := by
     rw [List.find?_eq_none]
@@ -647,18 +717,18 @@ theorem pathOf_append_none {g g' : Graph} {l new : List (NodeId × Entry)} {n : 
 theorem pathOf_stable (enc : Str → Str) (s : HState) (ops : List Op) (n : NodeId) (a : Str) (x : NodeId × PPath)
     (h : s.pathOf n a = some x) : (Hist.exec enc s ops).pathOf n a = some x := by
   obtain ⟨new, e, _⟩ := exec_paths enc ops s
-  have : Hist.exec enc s ops = ⟨(Hist.exec enc s ops).g, s.paths ++ new⟩ := by rw [← e]
+  have : Hist.exec enc s ops = ⟨(Hist.exec enc s ops).g, s.paths ++ new, (Hist.exec enc s ops).jobs⟩ := by rw [← e]
   rw [this]
-  exact pathOf_append_some (g := s.g) h
+  exact pathOf_append_some (g := s.g) (j := s.jobs) h
 
 /-- the attributes of a sealed object are fixed (the assigned ones keep their value, no other one is
     ever assigned). -/
 theorem pathOf_sealed (enc : Str → Str) (s : HState) (ops : List Op) (n : NodeId) (nd : Node) (a : Str)
     (hn : s.g.node n = some nd) (hs : nd.isSealed = true) : (Hist.exec enc s ops).pathOf n a = s.pathOf n a := by
   obtain ⟨new, e, h⟩ := exec_paths enc ops s
-  have : Hist.exec enc s ops = ⟨(Hist.exec enc s ops).g, s.paths ++ new⟩ := by rw [← e]
+  have : Hist.exec enc s ops = ⟨(Hist.exec enc s ops).g, s.paths ++ new, (Hist.exec enc s ops).jobs⟩ := by rw [← e]
   rw [this]
-  exact pathOf_append_none (g := s.g) (fun x hx hxn => h x hx ⟨nd, hxn ▸ hn, hs⟩)
+  exact pathOf_append_none (g := s.g) (j := s.jobs) (fun x hx hxn => h x hx ⟨nd, hxn ▸ hn, hs⟩)
 
 /-! #### invariants of the log -/
 
@@ -668,18 +738,20 @@ structure HState.LInv (enc : Str → Str) (s : HState) : Prop where
   nodeSealed : ∀ x ∈ s.paths, ∃ nd, s.g.node x.2.node = some nd ∧ nd.isSealed = true
   /-- so is the task whose job directory the path is relative to -/
   tagSealed : ∀ x ∈ s.paths, ∃ nr, s.g.node x.1 = some nr ∧ nr.isSealed = true
+  /-- and that task was submitted -/
+  tagJob : ∀ x ∈ s.paths, x.1 ∈ s.jobs
   /-- an attribute is assigned at most once in the whole history -/
   once : (s.paths.map (fun x => (x.2.node, x.2.arg))).Nodup
   shape : ∀ x ∈ s.paths, (∀ k ∈ x.2.keys, Plain k) ∧ Plain x.2.file ∧ x.2.path = ⟨false, base x.2.keys ++ [x.2.file]⟩
   /-- within one job directory, equal paths belong to the same object and file name -/
   inj : ∀ x ∈ s.paths, ∀ y ∈ s.paths, x.1 = y.1 → x.2.path = y.2.path → x.2.node = y.2.node ∧ x.2.file = y.2.file
 
-theorem linv_init {enc : Str → Str} {g : Graph} (h : g.Init enc) : (HState.mk g []).LInv enc :=
-  ⟨inv_of_init h, by simp, by simp, by simp, by simp, by simp⟩
+theorem linv_init {enc : Str → Str} {g : Graph} (h : g.Init enc) : (HState.mk g [] []).LInv enc :=
+  ⟨inv_of_init h, by simp, by simp, by simp, by simp, by simp, by simp⟩
 
 theorem linv_same_paths {enc : Str → Str} {s s' : HState} (h : s.LInv enc) (hp : s'.paths = s.paths)
-    (hle : s.g.Le s'.g) (hi : s'.g.Inv enc) : s'.LInv enc := by
-  refine ⟨hi, ?_, ?_, hp ▸ h.once, hp ▸ h.shape, hp ▸ h.inj⟩
+    (hj : s'.jobs = s.jobs) (hle : s.g.Le s'.g) (hi : s'.g.Inv enc) : s'.LInv enc := by
+  refine ⟨hi, ?_, ?_, hp ▸ hj ▸ h.tagJob, hp ▸ h.once, hp ▸ h.shape, hp ▸ h.inj⟩
   · intro x hx
     obtain ⟨nd, a, b⟩ := h.nodeSealed x (hp ▸ hx)
     obtain ⟨nd', a', b'⟩ := hle _ nd a
@@ -689,33 +761,63 @@ theorem linv_same_paths {enc : Str → Str} {s s' : HState} (h : s.LInv enc) (hp
     obtain ⟨nd', a', b'⟩ := hle _ nd a
     exact ⟨nd', a', b' b⟩
 
+theorem step_submit_rejected (enc : Str → Str) (s : HState) (root : NodeId) (inits outs : List NodeId)
+    (h : root ∈ s.jobs ∨ s.g.node root = none) : s.step enc (.submit root inits outs) = s := by
+  simp only [HState.step, h, if_true]
+
+theorem step_submit_accepted (enc : Str → Str) (s : HState) (root : NodeId) (inits outs : List NodeId)
+    (h : ¬ (root ∈ s.jobs ∨ s.g.node root = none)) : s.step enc (.submit root inits outs) =
+      { g := markOutputs (submit enc s.g root inits).1 root outs
+        paths := s.paths ++ (submit enc s.g root inits).2.map (fun e => (root, e))
+        jobs := root :: s.jobs } := by
+  simp only [HState.step, h, if_false]
+
+/-- what a `submit` step adds to the log. -/
+theorem step_submit_paths (enc : Str → Str) (s : HState) (root : NodeId) (inits outs : List NodeId) :
+    ∃ new, (s.step enc (.submit root inits outs)).paths = s.paths ++ new
+      ∧ (∀ x ∈ new, x.1 = root ∧ x.2 ∈ (submit enc s.g root inits).2)
+      ∧ (¬ (root ∈ s.jobs ∨ s.g.node root = none) → new = (submit enc s.g root inits).2.map (fun e => (root, e))) := by
+  by_cases hgd : root ∈ s.jobs ∨ s.g.node root = none
+  · rw [step_submit_rejected enc s root inits outs hgd]
+    exact ⟨[], by simp, by simp, fun h => absurd hgd h⟩
+  · rw [step_submit_accepted enc s root inits outs hgd]
+    refine ⟨_, rfl, ?_, fun _ => rfl⟩
+    intro x hx
+    obtain ⟨e, he, rfl⟩ := List.mem_map.mp hx
+    exact ⟨rfl, he⟩
+
 theorem linv_step {enc : Str → Str} {s : HState} (h : s.LInv enc) (op : Op) (hw : op.wfB enc = true) :
     (s.step enc op).LInv enc := by
   have hi := inv_step h.inv op hw
   have hle := le_step enc s op
   cases op with
-  | construct nd => exact linv_same_paths h rfl hle hi
-  | set n k v pos => exact linv_same_paths h rfl hle hi
-  | addPre n t => exact linv_same_paths h rfl hle hi
-  | copyDeps c o => exact linv_same_paths h rfl hle hi
-  | mark r o => exact linv_same_paths h rfl hle hi
+  | construct nd => exact linv_same_paths h rfl rfl hle hi
+  | set n k v pos => exact linv_same_paths h rfl rfl hle hi
+  | addPre n t => exact linv_same_paths h rfl rfl hle hi
+  | copyDeps c o => exact linv_same_paths h rfl rfl hle hi
+  | mark r o => exact linv_same_paths h rfl rfl hle hi
   | submit root inits outs =>
-    have hle2 : (submit enc s.g root inits).1.Le (s.step enc (.submit root inits outs)).g := le_markOutputs root outs _
+    by_cases hgd : root ∈ s.jobs ∨ s.g.node root = none
+    · rw [step_submit_rejected enc s root inits outs hgd]; exact h
+    rw [step_submit_accepted enc s root inits outs hgd] at hi hle ⊢
+    have hjob : root ∉ s.jobs := fun hj => hgd (Or.inl hj)
+    obtain ⟨nr, hr⟩ : ∃ nr, s.g.node root = some nr := by
+      cases hn : s.g.node root with
+      | none => exact absurd (Or.inr hn) hgd
+      | some nr => exact ⟨nr, rfl⟩
+    have hle2 : (submit enc s.g root inits).1.Le (markOutputs (submit enc s.g root inits).1 root outs) :=
+      le_markOutputs root outs _
     have hok : (withInits s.g root inits).OK enc := (inv_withInits h.inv root inits).ok
-    have hpaths : (s.step enc (.submit root inits outs)).paths
-        = s.paths ++ (submit enc s.g root inits).2.map (fun e => (root, e)) := rfl
+    have hwalk := submitSealed_ok enc _ hok root
     -- the new entries
     have hnew : ∀ x ∈ (submit enc s.g root inits).2.map (fun e => (root, e)),
-        x.1 = root ∧ x.2 ∈ genpaths enc (withInits s.g root inits) root
-          ∧ (∃ nd, s.g.node x.2.node = some nd ∧ nd.isSealed = false)
-          ∧ (∃ nd, s.g.node root = some nd ∧ nd.isSealed = false) := by
+        x.1 = root ∧ x.2 ∈ submitPaths enc (withInits s.g root inits) root
+          ∧ (∃ nd, s.g.node x.2.node = some nd ∧ nd.isSealed = false) := by
       intro x hx
       obtain ⟨e, he, rfl⟩ := List.mem_map.mp hx
-      exact ⟨rfl, he, submit_entries_unsealed enc s.g root inits e he,
-        submit_entries_root enc s.g root inits (List.ne_nil_of_mem he)⟩
-    refine ⟨hi, ?_, ?_, ?_, ?_, ?_⟩
+      exact ⟨rfl, he, submit_entries_unsealed enc s.g root inits e he⟩
+    refine ⟨hi, ?_, ?_, ?_, ?_, ?_, ?_⟩
     · intro x hx
-      rw [hpaths] at hx
       rcases List.mem_append.mp hx with hx | hx
       · obtain ⟨nd, a, b⟩ := h.nodeSealed x hx
         obtain ⟨nd', a', b'⟩ := hle _ nd a
@@ -725,49 +827,47 @@ theorem linv_step {enc : Str → Str} {s : HState} (h : s.LInv enc) (op : Op) (h
         obtain ⟨nd', a', b'⟩ := hle2 _ nd a
         exact ⟨nd', a', b' b⟩
     · intro x hx
-      rw [hpaths] at hx
       rcases List.mem_append.mp hx with hx | hx
       · obtain ⟨nd, a, b⟩ := h.tagSealed x hx
         obtain ⟨nd', a', b'⟩ := hle _ nd a
         exact ⟨nd', a', b' b⟩
-      · obtain ⟨hx1, _, _, nr, hr, _⟩ := hnew x hx
+      · obtain ⟨hx1, _, _⟩ := hnew x hx
         obtain ⟨nd, a, b⟩ := submit_root_sealed enc s.g root inits nr hr
         obtain ⟨nd', a', b'⟩ := hle2 _ nd a
         exact ⟨nd', hx1 ▸ a', b' b⟩
-    · rw [hpaths, List.map_append, List.nodup_append]
+    · intro x hx
+      rcases List.mem_append.mp hx with hx | hx
+      · exact List.mem_cons_of_mem _ (h.tagJob x hx)
+      · rw [(hnew x hx).1]; exact List.mem_cons_self
+    · show ((s.paths ++ (submit enc s.g root inits).2.map (fun e => (root, e))).map (fun x => (x.2.node, x.2.arg))).Nodup
+      rw [List.map_append, List.nodup_append]
       refine ⟨h.once, ?_, ?_⟩
       · rw [List.map_map]
-        exact genpaths_params_nodup enc _ hok root
+        exact entries_params_nodup enc _ hok _ hwalk.nodes
       · intro a ha b hb e
         obtain ⟨x, hx, rfl⟩ := List.mem_map.mp ha
         obtain ⟨y, hy, rfl⟩ := List.mem_map.mp hb
         obtain ⟨nd, a1, b1⟩ := h.nodeSealed x hx
-        obtain ⟨_, _, ⟨nd', a2, b2⟩, _⟩ := hnew y hy
+        obtain ⟨_, _, nd', a2, b2⟩ := hnew y hy
         have hn : x.2.node = y.2.node := (Prod.mk.inj e).1
         rw [hn, a2] at a1
         cases a1
         rw [b1] at b2
         cases b2
     · intro x hx
-      rw [hpaths] at hx
       rcases List.mem_append.mp hx with hx | hx
       · exact h.shape x hx
-      · exact genpaths_shape enc _ hok root x.2 (hnew x hx).2.1
+      · exact entries_shape enc _ hok _ hwalk x.2 (hnew x hx).2.1
     · intro x hx y hy hxy hp
-      rw [hpaths] at hx hy
+      -- no earlier entry is relative to the job directory of `root`: `root` was not submitted before
       have hclash : ∀ x ∈ s.paths, ∀ y ∈ (submit enc s.g root inits).2.map (fun e => (root, e)), x.1 = y.1 → False := by
         intro x hx y hy hxy
-        obtain ⟨nd, a1, b1⟩ := h.tagSealed x hx
-        obtain ⟨hy1, _, _, nr, a2, b2⟩ := hnew y hy
-        rw [hxy, hy1, a2] at a1
-        cases a1
-        rw [b1] at b2
-        cases b2
+        exact hjob ((hnew y hy).1 ▸ hxy ▸ h.tagJob x hx)
       rcases List.mem_append.mp hx with hx | hx <;> rcases List.mem_append.mp hy with hy | hy
       · exact h.inj x hx y hy hxy hp
       · exact (hclash x hx y hy hxy).elim
       · exact (hclash y hy x hx hxy.symm).elim
-      · obtain ⟨a, b, _⟩ := genpaths_inj enc _ hok root x.2 y.2 (hnew x hx).2.1 (hnew y hy).2.1 hp
+      · obtain ⟨a, b, _⟩ := entries_inj enc _ hok _ hwalk x.2 y.2 (hnew x hx).2.1 (hnew y hy).2.1 hp
         exact ⟨a, b⟩
 
 theorem linv_exec {enc : Str → Str} : ∀ (ops : List Op) (s : HState), s.LInv enc → Hist.WF enc ops →
@@ -778,7 +878,7 @@ theorem linv_exec {enc : Str → Str} : ∀ (ops : List Op) (s : HState), s.LInv
     exact linv_exec ops _ (linv_step h op h1) h2
 
 theorem linv_hist {enc : Str → Str} {g0 : Graph} (hi : g0.Init enc) {ops : List Op} (hw : Hist.WF enc ops) :
-    (Hist.exec enc ⟨g0, []⟩ ops).LInv enc := linv_exec ops _ (linv_init hi) hw
+    (Hist.exec enc ⟨g0, [], []⟩ ops).LInv enc := linv_exec ops _ (linv_init hi) hw
 
 /-! ### F. with the repaired key encoder nothing is asked of the content of dict keys -/
 
@@ -944,10 +1044,10 @@ theorem same_submit (enc : Str → Str) {σ : NodeId → NodeId} {g g' : Graph} 
   have h1 : Graph.Same σ (withInits g root inits) (withInits g' (σ root) (inits.map σ)) :=
     same_setAt hs root _ _ (fun _ _ => rfl)
   refine ⟨?_, ?_⟩
-  · rw [submit_fst, submit_fst, sealed_rename enc σ _ _ h1]
+  · rw [submit_fst, submit_fst, submitSealed_rename enc σ _ _ h1]
     exact same_setAt (same_sealList _ _ _ h1) root _ _ (fun _ _ => rfl)
   · rw [submit_snd, submit_snd]
-    exact genpaths_rename enc σ _ _ h1 root
+    exact submitPaths_rename enc σ _ _ h1 root
 
 /-- two states that are the same configuration up to the renaming `σ` of objects, `σ` fixing every
     identity not yet allocated (so that both sides allocate the same new objects). -/
@@ -955,34 +1055,62 @@ structure Sim (σ : NodeId → NodeId) (s s' : HState) : Prop where
   same : Graph.Same σ s.g s'.g
   fix : ∀ n, s.g.nodes.length ≤ n → σ n = n
   paths : s'.paths = s.paths.map (fun x => (σ x.1, x.2.rename σ))
+  jobs : s'.jobs = s.jobs.map σ
 
 theorem sim_step (enc : Str → Str) {σ : NodeId → NodeId} {s s' : HState} (h : Sim σ s s') (op : Op) :
     Sim σ (s.step enc op) (s'.step enc (op.rename σ)) := by
   have hfix : ∀ n, (s.step enc op).g.nodes.length ≤ n → σ n = n :=
     fun n hn => h.fix n (Nat.le_trans (le_length (le_step enc s op)) hn)
   cases op with
-  | construct nd => exact ⟨same_construct h.same h.fix nd, hfix, h.paths⟩
-  | set n k v pos => exact ⟨same_setParam h.same n k v pos, hfix, h.paths⟩
-  | addPre n t => exact ⟨same_addPre h.same n t, hfix, h.paths⟩
-  | copyDeps c o => exact ⟨same_copyDeps h.same c o, hfix, h.paths⟩
-  | mark r o => exact ⟨same_markOutput h.same r o, hfix, h.paths⟩
+  | construct nd => exact ⟨same_construct h.same h.fix nd, hfix, h.paths, h.jobs⟩
+  | set n k v pos => exact ⟨same_setParam h.same n k v pos, hfix, h.paths, h.jobs⟩
+  | addPre n t => exact ⟨same_addPre h.same n t, hfix, h.paths, h.jobs⟩
+  | copyDeps c o => exact ⟨same_copyDeps h.same c o, hfix, h.paths, h.jobs⟩
+  | mark r o => exact ⟨same_markOutput h.same r o, hfix, h.paths, h.jobs⟩
   | submit root inits outs =>
-    obtain ⟨a, b⟩ := same_submit enc h.same root inits
-    refine ⟨same_markOutputs root outs _ _ a, hfix, ?_⟩
-    show s'.paths ++ (submit enc s'.g (σ root) (inits.map σ)).2.map (fun e => (σ root, e))
-      = (s.paths ++ (submit enc s.g root inits).2.map (fun e => (root, e))).map (fun x => (σ x.1, x.2.rename σ))
-    rw [h.paths, b, List.map_append, List.map_map, List.map_map]
-    rfl
+    -- the guard ("already submitted" / unknown object) gives the same answer on both sides
+    have hguard : (σ root ∈ s'.jobs ∨ s'.g.node (σ root) = none) ↔ (root ∈ s.jobs ∨ s.g.node root = none) := by
+      rw [h.jobs, h.same.node root]
+      constructor
+      · rintro (hm | hn)
+        · obtain ⟨a, ha, e⟩ := List.mem_map.mp hm
+          exact Or.inl (h.same.inj _ _ e ▸ ha)
+        · cases hg : s.g.node root with
+          | none => exact Or.inr rfl
+          | some nd => simp [hg] at hn
+      · rintro (hm | hn)
+        · exact Or.inl (List.mem_map_of_mem hm)
+        · exact Or.inr (by simp [hn])
+    by_cases hgd : root ∈ s.jobs ∨ s.g.node root = none
+    · have e1 : s.step enc (.submit root inits outs) = s := step_submit_rejected enc s root inits outs hgd
+      have e2 : s'.step enc ((Op.submit root inits outs).rename σ) = s' :=
+        step_submit_rejected enc s' (σ root) (inits.map σ) (outs.map σ) (hguard.mpr hgd)
+      rw [e1, e2]
+      exact h
+    · have e1 := step_submit_accepted enc s root inits outs hgd
+      have e2 : s'.step enc ((Op.submit root inits outs).rename σ) = _ :=
+        step_submit_accepted enc s' (σ root) (inits.map σ) (outs.map σ) (fun hc => hgd (hguard.mp hc))
+      rw [e1] at hfix
+      rw [e1, e2]
+      obtain ⟨a, b⟩ := same_submit enc h.same root inits
+      refine ⟨same_markOutputs root outs _ _ a, hfix, ?_, ?_⟩
+      · show s'.paths ++ (submit enc s'.g (σ root) (inits.map σ)).2.map (fun e => (σ root, e))
+          = (s.paths ++ (submit enc s.g root inits).2.map (fun e => (root, e))).map (fun x => (σ x.1, x.2.rename σ))
+        rw [h.paths, b, List.map_append, List.map_map, List.map_map]
+        rfl
+      · show σ root :: s'.jobs = (root :: s.jobs).map σ
+        rw [h.jobs]
+        rfl
 
 theorem sim_exec (enc : Str → Str) {σ : NodeId → NodeId} : ∀ (ops : List Op) (s s' : HState), Sim σ s s' →
     Sim σ (Hist.exec enc s ops) (Hist.exec enc s' (ops.map (Op.rename σ)))
   | [], _, _, h => h
   | op :: ops, _, _, h => sim_exec enc ops _ _ (sim_step enc h op)
 
-theorem pathOf_rename {σ : NodeId → NodeId} (hinj : ∀ a b, σ a = σ b → a = b) (g g' : Graph)
+theorem pathOf_rename {σ : NodeId → NodeId} (hinj : ∀ a b, σ a = σ b → a = b) (g g' : Graph) (j j' : List NodeId)
     (l : List (NodeId × Entry)) (n : NodeId) (a : Str) :
-    (HState.mk g' (l.map (fun x => (σ x.1, x.2.rename σ)))).pathOf (σ n) a
-      = ((HState.mk g l).pathOf n a).map (fun x => (σ x.1, x.2)) := by
+    (HState.mk g' (l.map (fun x => (σ x.1, x.2.rename σ))) j').pathOf (σ n) a
+      = ((HState.mk g l j).pathOf n a).map (fun x => (σ x.1, x.2)) := by
   simp only [HState.pathOf]
   induction l with
   | nil => rfl
